@@ -14,7 +14,7 @@ import (
 func init() { register("C09", runC09) }
 
 func runC09(c *Check, tier string) {
-	c.Decides = "canonicity of the key as a property of the hashed byte stream: (order) every collection is sorted before it is joined or written element-wise to a hasher, map-ordered slices are sorted before use, hashed protobuf bytes are marshalled deterministically, adjacent-duplicate removal happens only on sorted data; (purity) no location/time/host datum reaches a hasher; (framing) per hasher instance at most one variable-length component is written unframed and joins of variable-length elements are not used as a single component."
+	c.Decides = "canonicity of the key as a property of the hashed byte stream: (order) every collection is sorted before it is joined or written element-wise to a hasher, map-ordered slices are sorted before use, hashed protobuf bytes are marshalled deterministically, adjacent-duplicate removal happens only on sorted data; (purity) no location/time/host datum reaches a hasher; (framing) per hasher instance at most one variable-length component is written unframed and joins of variable-length elements are not used as a single component; every existing input file contributes its bytes (skipped only when missing)."
 	c.NotDec = "the 'only if' direction beyond the listed fields, collision resistance of the hash function, equality of keys across BUILD-file formats."
 	ruleR09a(c)
 	ruleKeyPurity(c, "R09b")
